@@ -61,11 +61,39 @@ def held_terms(events, released):
     return [t for t in started if t not in finished and t not in released]
 
 
+class LogTail:
+    """incremental reader of the append-only event log (avoids re-parsing the file at every poll)"""
+
+    def __init__(self, path):
+        self.path, self.pos, self.events, self.buf = str(path), 0, [], b""
+
+    def read(self):
+        import json as _json
+        try:
+            with open(self.path, "rb") as f:
+                f.seek(self.pos)
+                data = f.read()
+        except FileNotFoundError:
+            return self.events
+        if data:
+            self.pos += len(data)
+            self.buf += data
+            *lines, self.buf = self.buf.split(b"\n")
+            for ln in lines:
+                if ln.strip():
+                    try:
+                        self.events.append(_json.loads(ln))
+                    except ValueError:
+                        pass
+        return self.events
+
+
 def controller(sub, worker, log, gates, chooser, stop, order, stats, force_after=40.0):
     released = set()
     last_progress = time.time()
+    tail = LogTail(log)
     while not stop.is_set():
-        ev = evlog.read(log)
+        ev = list(tail.read())
         held = held_terms(ev, released)
         ninf = len(worker.inflight)
         quiescent = sub.parked and held and ninf > 0 and len(held) >= min(ninf, worker.n_procs)
@@ -75,7 +103,7 @@ def controller(sub, worker, log, gates, chooser, stop, order, stats, force_after
         if quiescent or forced:
             if not forced:
                 time.sleep(0.01)
-                if not sub.parked or len(worker.inflight) != ninf or len(evlog.read(log)) != len(ev):
+                if not sub.parked or len(worker.inflight) != ninf or len(tail.read()) != len(ev):
                     continue
             stats["max_held"] = max(stats.get("max_held", 0), len(held))
             stats.setdefault("held_sizes", []).append(len(held))
@@ -99,14 +127,14 @@ def controller(sub, worker, log, gates, chooser, stop, order, stats, force_after
                 (Path(gates) / gate_name(c)).touch()
             t0 = time.time()
             while not stop.is_set() and time.time() - t0 < 30:
-                evs = evlog.read(log)
+                evs = tail.read()
                 if all(any(e.get("term") == c and e["ev"] in ("end", "fail") for e in evs) for c in batch):
                     break
-                time.sleep(0.002)
+                time.sleep(0.004)
             last_progress = time.time()
             time.sleep(0.02)
         else:
-            time.sleep(0.003)
+            time.sleep(0.005)
 
 
 def run_gated(task, wctx, chooser, max_concurrent=None, n_procs=8, raise_errors=True, watchdog=120.0):
